@@ -76,6 +76,13 @@ def _try(fn, *a):
         return None
 
 
+def hrp_deviates(text: str) -> bool:
+    """the ONE known deviation (known_findings key bech32.hrp-range): BIP173 allows HRP characters 33..126,
+    btclib 48..122.  On such strings the reference verdict is not compared (the model still is)."""
+    pos = text.rfind("1")
+    return pos > 0 and any(33 <= ord(c) <= 126 and not 47 < ord(c) < 123 for c in text[:pos])
+
+
 def impl(line: str) -> str:  # noqa: PLR0911, PLR0912
     t = line.split(" ")
     op = t[0]
@@ -96,7 +103,9 @@ def impl(line: str) -> str:  # noqa: PLR0911, PLR0912
             except Exception as e:  # noqa: BLE001
                 a = _err(e)
             ref = "ref none"
-            if len(text) <= 90:
+            if hrp_deviates(text):
+                ref = "ref hrp-range-known"
+            elif len(text) <= 90:
                 r1, rm = _try(bech32.decode, text, M1), _try(bech32.decode, text, MM)
                 if r1 is not None:
                     ref = f"ref {T(r1[0])} {vals(r1[1])} bech32"
@@ -456,7 +465,7 @@ def run(ctx):  # noqa: PLR0912, PLR0915
 
     # ---- bech32 codec: encode / decode with options ---------------------------------------------------
     hrps = ["bc", "tb", "bcrt", "a", "split", "1", "11", "x1y", "ln", "0z9", "abcdefghijklmnopqrstuvwxyz", "BC", "Tb",
-            "", "a b", "\xe9"]
+            "", "a b", "\xe9", "{", "/", "a-b"]
     enc_lines, dec_lines = [], []
     for _ in range(ctx.n(1200)):
         hrp = rng.choice(hrps) if rng.random() < 0.7 else "".join(rng.choice("abc123xyz0") for _ in range(rng.randrange(1, 12)))
@@ -626,9 +635,8 @@ def run(ctx):  # noqa: PLR0912, PLR0915
                 b += bytes([rng.randrange(256)])
             spk = bytes(b)
         if p2ms_shaped(spk):
-            # known shape on which is_p2ms lets a BTClibRuntimeError out: real-code oracle only, own key
+            # the shape on which is_p2ms once let a BTClibRuntimeError out (fixed in /repo 207d3016): keep watching
             ctx.check("spk.inverse", {"spk": spk.hex(), "net": net, "addressless": addressless}, key=KEY_P2MS)
-            continue
         lines.append(f"spk.type {hx(spk)}")
         lines.append(f"spk.addr {hx(spk)} {net}")
         out = impl(f"spk.addr {hx(spk)} {net}")
